@@ -1,4 +1,5 @@
 import RpmVerif.Model.Digest
+import RpmVerif.Model.PgpFraming
 /-!
 # L4: `Package::verify_signature` and rpm-rs's own `pgp::Verifier::verify` — model of
 `src/rpm/package.rs` (as it is now, after fix 7d84e5c) and `src/rpm/signature/pgp.rs`
@@ -174,6 +175,46 @@ def pgpVerifierVerify {K} (E : PgpEnv K) (ring : KeyRing K) (data sig : Bytes) :
   | some [] =>
     (if (attempt E ring.primary data sig).1 then .ok () else .err "verify", [(attempt E ring.primary data sig).2])
   | some ids => issuerLoop E ring data sig ids false []
+
+/-! ### `Verifier::verify` with `parse_signature` spelled out (framing → first Signature packet)
+
+`PgpEnv` above treats "parse the blob, take the issuers / check the signature" as opaque functions of the WHOLE blob.
+`PgpPkt` opens that box as far as rpm-rs's own code goes: the blob is framed by `split_packets`, the `pgp` crate's parser
+is asked about ONE packet at a time (`parsePkt`, a parameter), the first packet it returns as a signature is THE signature
+(`Pgp.parseSignature`), and everything after that — `issuer()`, `verify(key, data)` — is a function of that parsed
+signature `s : σ` alone, never of the blob again. -/
+
+/-- the `pgp` crate, one packet at a time:
+* `parsePkt p`      `PacketParser::new(Cursor::new(p)).next()` is `Some(Ok(Packet::Signature(s)))`;
+* `issuers s`       `s.issuer()` (key ids);
+* `early k s` / `check k d s`   as in `PgpEnv`, for the parsed signature -/
+structure PgpPkt (K σ : Type) where
+  kid : K → Nat
+  parsePkt : Bytes → Option σ
+  issuers : σ → List Nat
+  early : K → σ → Bool
+  check : K → Bytes → σ → Bool
+
+/-- the code after `let signature = Self::parse_signature(signature)?;` only uses the parsed signature -/
+def PgpPkt.envAt {K σ} (E : PgpPkt K σ) (s : σ) : PgpEnv K where
+  kid := E.kid
+  issuers := fun _ => some (E.issuers s)
+  early := fun k _ => E.early k s
+  check := fun k d _ => E.check k d s
+
+/-- `impl Verifying for Verifier { fn verify }`: `parse_signature(blob)?`, then the key selection on the parsed signature -/
+def pgpVerifierVerifyP {K σ} (E : PgpPkt K σ) (ring : KeyRing K) (data blob : Bytes) : Out Unit × List (Attempt K) :=
+  match Pgp.parseSignature E.parsePkt blob with
+  | none => (.err "nosig", [])
+  | some s => pgpVerifierVerify (E.envAt s) ring data blob
+
+/-- the opaque environment this amounts to: every field parses the blob (again) and looks at the first signature
+packet (`pgpVerifierVerifyP_eq_toEnv` in Lemmas/PgpVerifier.lean: same function) -/
+def PgpPkt.toEnv {K σ} (E : PgpPkt K σ) : PgpEnv K where
+  kid := E.kid
+  issuers := fun blob => (Pgp.parseSignature E.parsePkt blob).map E.issuers
+  early := fun k blob => match Pgp.parseSignature E.parsePkt blob with | some s => E.early k s | none => true
+  check := fun k d blob => match Pgp.parseSignature E.parsePkt blob with | some s => E.check k d s | none => false
 
 /-! ### the code before c25de51 (negative witnesses only) -/
 
